@@ -60,6 +60,7 @@ type Ctx struct {
 	rule     *RuleInfo
 	out      *[]Obligation
 	stats    *RuleStat
+	seen     map[string]int
 }
 
 type RuleStat struct {
@@ -82,6 +83,14 @@ func (c *Ctx) emit(st Status, props []string, construct, fn, pos, detail string,
 		props = c.rule.Props
 	}
 	key := c.rule.Name + "/" + fn + "/" + construct
+	// distinct instances of one construct in one function: #2, #3 … in source order
+	if c.seen == nil {
+		c.seen = map[string]int{}
+	}
+	c.seen[key]++
+	if n := c.seen[key]; n > 1 {
+		key += fmt.Sprintf("#%d", n)
+	}
 	*c.out = append(*c.out, Obligation{Rule: c.rule.Name, Key: key, Pos: pos, Status: st.String(), Detail: detail, Props: props, Nontrivial: nontrivial, st: st})
 	c.stats.Instances++
 	switch st {
